@@ -46,6 +46,10 @@ func runC02(c *rt.Ctx) {
 			continue
 		}
 		alpha := stackAlphabet(cfg, true)
+		// commands whose client is gone before the reply can be written (nothing is in flight once
+		// the server has dropped that connection: L1 must again hold nothing L2 does not)
+		alpha = append(alpha, wire.Op{Kind: "delete", Key: "a", Gone: true}, wire.Op{Kind: "set", Key: "a", Val: "g", Flags: 11, Gone: true},
+			wire.Op{Kind: "append", Key: "a", Val: "h", Gone: true}, wire.Op{Kind: "touch", Key: "a", TTL: 3600, Gone: true})
 		if cfg.L1H == "chunked" {
 			// memcached evicts single entries: the metadata or one chunk of a key on its own
 			alpha = append(alpha, wire.Op{Kind: "evict-entry", Key: "a-meta"}, wire.Op{Kind: "evict-entry", Key: "a-0"})
